@@ -191,6 +191,26 @@ Theorem C02_nofault_completes :
 Proof. exact fnofault_completes. Qed.
 Print Assumptions C02_nofault_completes.
 
+(* The retry clause in one statement: whatever ANY run of a first call left, a fault-free second call (no
+   Mounter) that has not returned yet can be continued, fault-free and finitely, to the successful return, and
+   then everything reachable from its roots is in the destination. *)
+Theorem C02_rerun_completes :
+  forall (g : graph) (c1 c2 : cfg) (ext1 ext2 : bool) (d0 : list node) (rank : node -> nat)
+         (tr1 : list fevent) (fs1 : fstate) (tr2 : list fevent) (fs2 : fstate),
+    (forall n x, In x (succ' g n) -> rank x < rank n) ->
+    1 <= c_K c2 -> c_root c2 < g_n g -> (forall x, In x (c_xroots c2) -> x < g_n g) ->
+    (forall n x, n < g_n g -> In x (succ' g n) -> x < g_n g) ->
+    c_mount c2 = false -> (ext2 = true -> forall n, ~ In (c_root c2) (succ' g n)) ->
+    ext_ok g c1 ext1 d0 -> closed_nodes g d0 -> mt_consistent g ->
+    faccepts g c1 ext1 d0 tr1 = Some fs1 ->
+    ext_ok g c2 ext2 (dst (fb fs1)) ->
+    faccepts g c2 ext2 (dst (fb fs1)) tr2 = Some fs2 -> existsb is_fault tr2 = false -> returned (fb fs2) = None ->
+    exists tr3 fs3, existsb is_fault tr3 = false /\
+      faccepts g c2 ext2 (dst (fb fs1)) (tr2 ++ tr3) = Some fs3 /\ returned (fb fs3) = Some true /\
+      forall r n, is_call_root g c2 ext2 r -> reach g r n -> has g (dst (fb fs3)) n = true.
+Proof. exact frerun_completes. Qed.
+Print Assumptions C02_rerun_completes.
+
 Example C02_example_progress_hypotheses :
   (forall n x, In x (succ' g_sh n) -> x < n) /\ 1 <= c_K c_sh /\ c_root c_sh < g_n g_sh /\
   (forall n x, n < g_n g_sh -> In x (succ' g_sh n) -> x < g_n g_sh) /\ c_mount c_sh = false /\
